@@ -318,11 +318,20 @@ def ownerOf (t : Table) (m : Msg) : Option (Nat × Nat) :=
   | some s => (s.getExchForRx m.hdr).map (fun i => (s.uid, i))
   | none => none
 
-/-- number of exchange slots in a dropped state -/
-def droppedIn (s : Sess) : Nat := (s.exchs.filter (fun o => match o with
+def slotDropped : Option Exch → Bool
   | some e => e.role.isDropped
-  | none => false)).length
+  | none => false
 
+/-- number of exchange slots of a session in a dropped state -/
+def droppedIn (s : Sess) : Nat :=
+  ((List.range s.exchs.length).filter (fun j => slotDropped (s.slot j))).length
+
+/-- number of dropped exchanges of the node: the work left for the closer -/
 def droppedCount (t : Table) : Nat := (t.sessions.map droppedIn).sum
+
+/-- `k` runs of the closer -/
+def closerRuns : Nat → Node → Node
+  | 0, n => n
+  | k + 1, n => closerRuns k (closer n).1
 
 end RxPath
